@@ -1151,6 +1151,11 @@ class Interp:
                 if t.name == "int" and isinstance(o, bool):
                     return True
                 return isinstance(o, py)
+            if isinstance(t, ModRef) and hasattr(o, "skv_types"):
+                # stubs declare the external types they stand for
+                return any(t.name == x or t.name.endswith("." + x)
+                           or x.endswith("." + t.name.rsplit(".", 1)[-1])
+                           for x in o.skv_types)
             if isinstance(t, ModRef) and t.name == "numpy.ndarray" and \
                     getattr(o, "skv_isarray", False):
                 return True
